@@ -47,9 +47,9 @@ func specDurationValid(secs int64, nanos int32) bool {
 		!(secs > 0 && nanos < 0) && !(secs < 0 && nanos > 0)
 }
 
-//@ props C43
-//@ mode int
-//@ inline GetSeconds GetNanos
+// @ props C43
+// @ mode int
+// @ inline GetSeconds GetNanos
 func contract_Duration_AsDuration(x *Duration) (d time.Duration) {
 	ensures(imp(x == nil, d == 0))
 	// exact clamped value when seconds and nanos do not pull in opposite directions
@@ -64,9 +64,9 @@ func specSignMismatch(secs int64, nanos int32) bool {
 	return (secs > 0 && nanos < 0) || (secs < 0 && nanos > 0)
 }
 
-//@ props C43
-//@ mode int
-//@ inline GetSeconds GetNanos
+// @ props C43
+// @ mode int
+// @ inline GetSeconds GetNanos
 func contract_Duration_check(x *Duration) (code uint) {
 	ensures(imp(x == nil, code == invalidNil))
 	ensures(imp(x != nil, iff(code == 0, specDurationValid(x.Seconds, x.Nanos))))
@@ -74,16 +74,16 @@ func contract_Duration_check(x *Duration) (code uint) {
 	return
 }
 
-//@ props C43
-//@ mode int
+// @ props C43
+// @ mode int
 func contract_Duration_IsValid(x *Duration) (ok bool) {
 	ensures(ok == (x != nil && specDurationValid(x.Seconds, x.Nanos)))
 	return
 }
 
-//@ props C43
-//@ mode int
-//@ inline time.Duration.Nanoseconds
+// @ props C43
+// @ mode int
+// @ inline time.Duration.Nanoseconds
 func contract_New(d time.Duration) (r *Duration) {
 	ensures(r != nil)
 	// normalised: the value is split into whole seconds and a remainder of the same sign
@@ -100,8 +100,8 @@ func specDurationSplit(d, secs int64, nanos int32) bool {
 		secs*1000000000+int64(nanos) == d
 }
 
-//@ props C43
-//@ mode int
+// @ props C43
+// @ mode int
 func lemma_NewAsDurationRoundTrip(d time.Duration) {
 	r := New(d)
 	ensures(r.AsDuration() == d)
